@@ -45,7 +45,7 @@ func genYModsCase(r *Rng) Case {
 			tdefs = append(tdefs, mspec{"n": fmt.Sprintf("%st%d", dn, i), "base": pick(r, []string{"int8", "string", "uint16"})})
 		}
 		for i := 0; i < ng; i++ {
-			groups = append(groups, mspec{"n": fmt.Sprintf("%sg%d", m, i), "leaf": fmt.Sprintf("%sgl%d", m, i)})
+			groups = append(groups, mspec{"n": fmt.Sprintf("%sg%d", dn, i), "leaf": fmt.Sprintf("%sgl%d", m, i)})
 		}
 		s["features"], s["identities"], s["typedefs"], s["groupings"] = feats, idents, tdefs, groups
 		all[m] = s
@@ -322,9 +322,9 @@ func renderMod(c Case, s mspec) string {
 		b.WriteString("  grouping " + cstr(dm, "n") + " {\n    leaf " + cstr(dm, "leaf") + " { type string; }\n")
 		for i, u := range carr(dm, "uses") {
 			if cstr(dm, "nest") == "container" {
-				fmt.Fprintf(&b, "    container %sc%d { uses %s; }\n", cstr(dm, "n"), i, ref(m, u.(string)))
+				fmt.Fprintf(&b, "    container %sc%d { uses %s; }\n", cstr(dm, "leaf"), i, ref(m, u.(string)))
 			} else {
-				fmt.Fprintf(&b, "    container %sd%d { presence \"x\"; }\n    uses %s;\n", cstr(dm, "n"), i, ref(m, u.(string)))
+				fmt.Fprintf(&b, "    container %sd%d { presence \"x\"; }\n    uses %s;\n", cstr(dm, "leaf"), i, ref(m, u.(string)))
 			}
 		}
 		b.WriteString("  }\n")
